@@ -41,6 +41,29 @@ def _warm_up():
                     str(tr)
             except Exception:
                 pass
+    # another caller customises ITS objects: it edits the public tables and lists of a parser and of a front end of its
+    # own in place (replaces and removes decoders, clears the qualifier table, appends to the filter lists, writes the
+    # process tables) and shallow-copies a configured front end.  Objects built afterwards are none of its business.
+    import copy
+    mine = TracesParser(dict(codes), {}, {})
+    for attr in ('handlers', 'qualifiers_actions', 'trace_codes', 'global_strings', 'tids_names', 'on_going_events',
+                 'on_going_traces', 'last_data_newthread', 'last_data_exec'):
+        table = getattr(mine, attr, None)
+        if isinstance(table, dict):
+            for i, k in enumerate(list(table)):
+                if i % 3 == 0:
+                    table[k] = (lambda *a, **kw: None) if attr in ('handlers', 'qualifiers_actions') else 'edited by another caller'
+                elif i % 3 == 1:
+                    del table[k]
+            table['added-by-another-caller'] = lambda *a, **kw: None
+    theirs = PyKdebugParser()
+    for attr, value in vars(theirs).items():
+        if isinstance(value, list):
+            value.extend([0x77, 0x7777])
+        elif isinstance(value, dict):
+            value[0x77] = 'edited by another caller'
+    clone = copy.copy(theirs)
+    clone.filter_tid, clone.filter_process = 0x7777, 'another-caller'
     data = wire.v2_file(gen.threadmap_for(events), 8, gen.events_to_records(events))
     front = PyKdebugParser()
     for cfg in (([4], []), ((4, 7), (0x301,)), ([], [0x40c]), ([], [])):
